@@ -49,6 +49,9 @@ type LCase struct {
 	// every step practically never produce.
 	Prio   []int `json:"prio,omitempty"`
 	Change []int `json:"change,omitempty"`
+	// StartCrash: the first incarnation panics in its Initialized (1) or Started (2) handler: the restart
+	// runs inside Spawn, on the spawner's thread, before the inbox was ever started
+	StartCrash int `json:"start_crash,omitempty"`
 }
 
 // pctChooser implements the priority schedule.
@@ -86,17 +89,18 @@ func pctChooser(prio, change []int) vsched.Chooser {
 }
 
 type lworld struct {
-	e        *actor.Engine
-	inc      int
-	log      []string // "inc:Kind[:payload]"
-	panicked map[string]bool
-	ctxs     []context.Context
-	how      []string
-	early    string // C07: a context was done before the final Stopped / unregistration
-	final    int    // number of final Stopped deliveries (an incarnation with no successor)
-	chain    int
-	active   int // invocations of Receive in progress (C02)
-	overlap  string
+	e          *actor.Engine
+	inc        int
+	log        []string // "inc:Kind[:payload]"
+	panicked   map[string]bool
+	ctxs       []context.Context
+	how        []string
+	early      string // C07: a context was done before the final Stopped / unregistration
+	final      int    // number of final Stopped deliveries (an incarnation with no successor)
+	chain      int
+	startCrash int
+	active     int // invocations of Receive in progress (C02)
+	overlap    string
 }
 
 type lrcv struct {
@@ -162,6 +166,9 @@ func (r *lrcv) Receive(c *actor.Context) {
 	}
 	w.log = append(w.log, entry)
 	vsched.Yield("recv")
+	if r.inc == 1 && ((w.startCrash == 1 && kind == "Initialized") || (w.startCrash == 2 && kind == "Started")) {
+		panic("generated crash in " + kind)
+	}
 	if s, ok := c.Message().(string); ok && s[0] == 'P' && !w.panicked[s] {
 		w.panicked[s] = true
 		panic("generated crash " + s)
@@ -189,7 +196,10 @@ func runLifeWith(c LCase, ch vsched.Chooser) (v lverdict, trace []string, steps 
 	if c.Senders < 1 || c.Senders > 3 || len(c.Ops) < 1 || len(c.Ops) > 8 || c.Budget < 0 || c.Budget > 3 || c.Size < 1 || c.Chain < 0 || c.Chain > 400 {
 		return
 	}
-	w := &lworld{panicked: map[string]bool{}, chain: c.Chain}
+	if c.StartCrash < 0 || c.StartCrash > 2 {
+		return
+	}
+	w := &lworld{panicked: map[string]bool{}, chain: c.Chain, startCrash: c.StartCrash}
 	s := vsched.New()
 	s.Go("main", func() {
 		e, _ := actor.NewEngine(actor.NewEngineConfig())
@@ -281,6 +291,9 @@ func runLifeWith(c LCase, ch vsched.Chooser) (v lverdict, trace []string, steps 
 		if op == "P" {
 			crashes++
 		}
+	}
+	if c.StartCrash > 0 {
+		crashes++
 	}
 	reg := w.e.Registry.GetPID("a", "1") != nil
 	if v.c07 == "" {
@@ -377,6 +390,7 @@ func genLife(t *rapid.T) LCase {
 		c.Chain = rapid.SampledFrom([]int{5, 299, 301, 320}).Draw(t, "chainlen")
 		c.Ops[rapid.IntRange(0, len(c.Ops)-1).Draw(t, "chainpos")] = "chain"
 	}
+	c.StartCrash = rapid.SampledFrom([]int{0, 0, 0, 0, 1, 2}).Draw(t, "start_crash")
 	if rapid.IntRange(0, 2).Draw(t, "uniform") == 0 {
 		c.Sched = rapid.SliceOfN(rapid.IntRange(0, 5), 0, 400).Draw(t, "sched")
 	} else {
